@@ -468,6 +468,9 @@ func (tr *trans) call(v ssa.Value, c *ssa.CallCommon, st State) {
 		if callee.Pkg != nil && callee.Pkg.Pkg.Path() == "sync/atomic" && tr.atomicCall(v, callee.Name(), c, st, pos) {
 			return
 		}
+		if callee.Pkg != nil && callee.Pkg.Pkg.Path() == "encoding/json" && callee.Name() == "Unmarshal" && tr.jsonUnmarshal(v, c, st) {
+			return
+		}
 		if callee.Pkg != nil && callee.Pkg.Pkg.Path() == "sort" && (callee.Name() == "Slice" || callee.Name() == "SliceStable") && tr.sortSlice(c, st) {
 			return
 		}
@@ -1059,5 +1062,41 @@ func (tr *trans) sortSlice(c *ssa.CallCommon, st State) bool {
 	tr.vc.assume(fmt.Sprintf("(forall ((j Int)) (! (=> %s (and %s (= (%s (%s j)) j))) :pattern ((select %s j))))", in("j"), in("("+inv+" j)"), perm, inv, old))
 	tr.setState(st, h, store(A, "(sarr "+s+")", nb), "(sarr "+s+")")
 	tr.note("sort.Slice permutes the slice (the resulting order is not modelled)")
+	return true
+}
+
+// jsonUnmarshal models json.Unmarshal(data, &x): the target object gets arbitrary content of its type
+// (pointers possibly nil), freshly allocated memory may appear, nothing else changes; the result is an
+// arbitrary error. Assumption (listed): the decoder writes only into the target and into memory it allocates.
+func (tr *trans) jsonUnmarshal(v ssa.Value, c *ssa.CallCommon, st State) bool {
+	mi, ok := c.Args[1].(*ssa.MakeInterface)
+	if !ok {
+		return false
+	}
+	pt, ok := mi.X.Type().Underlying().(*types.Pointer)
+	if !ok {
+		return false
+	}
+	if _, isFA := mi.X.(*ssa.FieldAddr); isFA {
+		return false
+	}
+	l := tr.locOf(mi.X)
+	if l.kind != locObj {
+		return false
+	}
+	et := pt.Elem()
+	nv := tr.vc.fresh("decoded")
+	tr.vc.declConst(nv, tr.vc.sortOf(et))
+	old := tr.getState(st, "$next")
+	n := tr.havocState(st, "$next")
+	tr.vc.assume(app(">=", n, old))
+	tr.store(st, l, nv)
+	if inv := tr.typeInv(nv, et, st, 0); inv != "true" {
+		tr.vc.assume(inv)
+	}
+	tr.ncall++
+	rs := tr.freshResults(fmt.Sprintf("call%d", tr.ncall), c.Signature(), st)
+	tr.setResults(v, rs)
+	tr.note("json.Unmarshal writes only into its target object and freshly allocated memory; the decoded value is arbitrary (pointers may be nil)")
 	return true
 }
